@@ -217,7 +217,10 @@ def check_case(case):
         if nx < 2 or (ny < 2):
             continue
         try:
-            level, area = extract_percentile_contour(F, grid, pct=p, level=(lvl - st_ if case.get("neg_level") and st_ > 1 else lvl))
+            if lvl == 0 and not case.get("neg_level") and case["perm_seed"][0] % 2 == 0:
+                level, area = extract_percentile_contour(F, grid, pct=p)  # level left to its documented default, the surface slice
+            else:
+                level, area = extract_percentile_contour(F, grid, pct=p, level=(lvl - st_ if case.get("neg_level") and st_ > 1 else lvl))
         except Exception as e:
             out.bad(f"extract_percentile_contour raised {type(e).__name__}: {e}")
             continue
